@@ -308,6 +308,9 @@ def main(chk: lib.Check) -> int:
     lib.tlc_expect_violation("Cache", "Cache_nodiff.cfg", "NeverWrongData", tag="ca1")
     lib.tlc_expect_violation("Cache", "Cache_noswallow.cfg", "NoReadError", tag="ca2")
     chk.notes["broken_designs_rejected"] = ["no config diff check after loading", "read errors not swallowed"]
+    r = lib.tlc_design("Cache", "Cache_live.cfg", tag="cal")
+    chk.add_model("Cache/live", r, "progress: a request is never stuck, takes at most 6 + W steps, ends unless the process is killed; a request right after a returned one is a cache hit")
+    lib.tlc_expect_violation("Cache", "Cache_unfair.cfg", "EveryRequestEnds", tag="cau")
     # unbounded in the number of requests and faults: the C11 invariants as an inductive invariant (Apalache, symbolic)
     apa = lib.apalache_inductive("MC_Cache", ["Cache.tla"], broken_sub=("CheckDiff == TRUE", "CheckDiff == FALSE"))
     chk.notes["apalache_inductive_invariant"] = apa
